@@ -111,6 +111,10 @@ def op_cases(draw, kind):
         case["onehot"] = draw(st.integers(0, n - 1))
     if gspec["cls"] == "sph" and draw(st.booleans()):
         case["explicit_conservative"] = True
+    if kind == "laplace" and gspec["cls"] in ("unit", "cart") and len(gspec["shape"]) == 2 \
+            and draw(st.integers(0, 2)) == 0:
+        # documented 9-point stencil (reads the corner ghost cells)
+        case["corner_weight"] = draw(st.sampled_from([1 / 3, 0.5, 0.2]))
     return case
 
 
@@ -131,6 +135,8 @@ def check_operator(case):
     else:
         bcs, _ = gb.make_boundaries(case["bc"], gspec, grid, dtype)
     opts = {"conservative": True} if case.get("explicit_conservative") else {}
+    if case.get("corner_weight"):
+        opts["corner_weight"] = case["corner_weight"]
     opname = "laplace" if kind == "laplace" else "divergence"
     res = field.apply_operator(opname, bcs, **opts)
     vol = exact_cell_volumes(gspec)
@@ -155,6 +161,8 @@ def check_operator(case):
     boundary_grad = bool(np.any(data != 0))
     labels = [f"grid:{grid_label(gspec)}", f"op:{opname}", "onehot" if case["onehot"] is not None else "dense",
               f"dtype:{dtype}", "bc:auto" if case["bc"] is None else f"bc:{case['bc']['style']}"]
+    if case.get("corner_weight"):
+        labels.append("9-point-stencil")
     return {"nt": boundary_grad and min(gspec["shape"]) >= 1, "labels": labels}
 
 
